@@ -136,7 +136,7 @@ def parse_meta_hex(s):
     return dict(kv.split(":") for kv in s.split("|"))
 
 
-def c13_class(label, view):
+def c13_class(label, view, man=None):
     if view.startswith("wsees"):
         parts = view.split(":")
         if "alt" in parts[4:]:
@@ -157,7 +157,20 @@ def c13_class(label, view):
     if view == "mgone":
         return "c13-manifest-gone-accepted"
     if view.startswith("m:") and view != "m:unparsable":
-        return "c13-manifest-altered"
+        # WHICH field of the parsed MANIFEST differs from the original decides the class (the MANIFEST has no checksum: some
+        # of these are a known finding; a new way of accepting an altered MANIFEST is a new class)
+        cls = []
+        o, n = (man or "").split("/"), view[2:].split("/")
+        if len(o) == 3 and len(n) == 3:
+            if o[0] != n[0]:
+                cls.append("snap-dropped" if n[0] == "-" else "snap-changed")
+            if o[1] != n[1]:
+                cls.append("snapseq-dropped" if n[1] == "-" else "snapseq-changed")
+            if o[2] != n[2]:
+                on, nn = o[2].split(","), n[2].split(",")
+                cls.append("segs-emptied" if n[2] == "-" else "segs-shorter" if len(nn) < len(on) else
+                           "segs-longer" if len(nn) > len(on) else "segs-entry-changed")
+        return "c13-manifest-altered:" + ("+".join(cls) if cls else "other")
     return "c13-other"
 
 
@@ -187,7 +200,7 @@ def sweep_oracle(i, f, r):
             continue
         if out.startswith("err:") or out == base:
             continue
-        k = c13_class(lab, view)
+        k = c13_class(lab, view, f.get("man"))
         if k in seen:
             continue
         seen.add(k)
